@@ -45,6 +45,7 @@ def mk(model):
     E["numpy.zeros"] = lambda I, a, k, n: Vec([sp.Integer(0)] * int(I.to_py(a[0][0] if isinstance(a[0], tuple) else a[0], n)))
     E["numpy.concatenate"] = lambda I, a, k, n: Vec([x for part in a[0] for x in (part.items if isinstance(part, Vec) else part)])
     E["numpy.testing.assert_almost_equal"] = lambda I, a, k, n: None
+    E["numpy.append"] = lambda I, a, k, n: Vec(list(a[0].items if isinstance(a[0], Vec) else a[0]) + list(a[1].items if isinstance(a[1], Vec) else a[1] if isinstance(a[1], (list, tuple)) else [a[1]]))
 
     def asarr(I, a, k, n):
         v = a[0]
@@ -255,6 +256,7 @@ def r_entry(ctx: Ctx, model):
             I.ext["numpy.linspace"] = lambda I, a, k, n: Vec([S("y0"), S("y1")])
             I.ext["numpy.array"] = lambda I, a, k, n: Obj(kind="Arr2", attrs={"rows": a[0]})
             I.libmeth[("Arr2", "transpose")] = lambda I, v, a, k, n: [Vec([S("y0"), 1 - S("y0")]), Vec([S("y1"), 1 - S("y1")])]
+            I.ext["numpy.column_stack"] = lambda I, a, k, n: [Vec([S("y0"), 1 - S("y0")]), Vec([S("y1"), 1 - S("y1")])]
             I.ext["scipy.optimize.root"] = lambda I, a, k, n: Obj(kind="RootRes", attrs={"x": Vec([S("u0")]), "success": True})
 
             def iso(flag):
@@ -311,6 +313,9 @@ def r_wrappers(ctx: Ctx, model):
             return v if isinstance(v, Vec) else Vec(list(v))
         I.ext["numpy.array"] = np_array
         I.ext["numpy.asarray"] = np_array
+        # column_stack((a, b)) == array((a, b)).transpose(): rows are the pairs
+        I.ext["numpy.column_stack"] = lambda I, a, k, n: Obj(kind="Mat", attrs={"rows": [Vec([c.items[j] for c in a[0]]) for j in range(len(a[0][0].items))]})
+        I.ext["numpy.vstack"] = lambda I, a, k, n: Obj(kind="Mat", attrs={"rows": [Vec(list(x.items)) for x in a[0]]})
         I.ext["numpy.zeros"] = lambda I, a, k, n: Obj(kind="Mat", attrs={"rows": [Vec([sp.Integer(0)] * int(I.to_py(a[0][1], n)))
                                                                                   for _ in range(int(I.to_py(a[0][0], n)))]})
         I.libmeth[("Mat", "transpose")] = lambda I, v, a, k, n: Obj(kind="Mat", attrs={"rows": [Vec([r.items[j] for r in v.attrs["rows"]])
